@@ -4,7 +4,8 @@ import FR.Proofs.PubSubHist
 # After the fix of KF-1: the events of a history
 
 Every event of `FR/Proofs/History.lean` (`stepEv`) keeps the queues well-formed (`TxWf`); and an event other than a
-write during an outage keeps "`fault` is set, or nothing crashed and every connection is alive".
+write during an outage keeps "nothing crashed and every connection is alive" (whether or not the model's `fault`
+marker is set: a run the replay cannot follow is still not a crash).
 -/
 namespace FR.C04k
 open FR FR.M FR.ErrSys
@@ -17,15 +18,11 @@ structure StepClosed (I : Sys → Prop) : Prop where
 
 theorem txWf_stepClosed : StepClosed TxWf := ⟨fun h hc _ => h.le hc.conns⟩
 
-/-- the invariant of one event: queues well-formed, and unless the model has flagged the run (`fault`), nothing has
-crashed and every connection is alive -/
-def K (s : Sys) : Prop := TxWf s ∧ (s.fault.isSome = true ∨ (s.crashed = none ∧ AllAlive s))
+/-- the invariant of one event: queues well-formed, nothing has crashed and every connection is alive -/
+def K (s : Sys) : Prop := TxWf s ∧ s.crashed = none ∧ AllAlive s
 
-theorem k_stepClosed : StepClosed K := by
-  refine ⟨fun {s s'} h hc hcr => ⟨h.1.le hc.conns, ?_⟩⟩
-  rcases h.2 with hf | ⟨h1, h2⟩
-  · exact .inl (hc.fault hf)
-  · exact .inr ⟨hcr.trans h1, h2.le hc.conns⟩
+theorem k_stepClosed : StepClosed K :=
+  ⟨fun {s s'} h hc hcr => ⟨h.1.le hc.conns, hcr.trans h.2.1, h.2.2.le hc.conns⟩⟩
 
 section generic
 variable {I : Sys → Prop}
@@ -180,12 +177,7 @@ theorem runHistory_txWf (evs : List Ev) : TxWf (runHistory evs) := foldl_stepEv_
 theorem processCommand_K (mode : Mode) (c : Nat) (fields : List Bytes) : Pres K (processCommand mode c fields) := by
   intro s h
   have hf := processCommand_spec mode c fields s h.1
-  refine ⟨hf.wf, ?_⟩
-  rcases h.2 with hfl | ⟨h1, h2⟩
-  · exact .inl (hf.fault hfl)
-  · rcases hf.crashed with hc | ⟨_, hfl, _⟩
-    · exact .inr ⟨hc.trans h1, hf.alive h2 (hc.trans h1)⟩
-    · exact .inl hfl
+  exact ⟨hf.wf, hf.crashed.trans h.2.1, hf.alive h.2.2 (hf.crashed.trans h.2.1)⟩
 
 theorem AllAlive.conn {s : Sys} (h : AllAlive s) (c : Nat) : (s.conn c).dead = false := by
   rw [Sys.conn_def]
@@ -201,11 +193,8 @@ theorem sendall_K (mode : Mode) (c : Nat) (data : Bytes) : Pres K (sendall mode 
   simp only [bind, StateT.bind, getConn_run]
   cases hd : (s.conn c).dead with
   | true =>
-    -- a dead connection in a state satisfying `K`: the run is already flagged
-    simp only [if_true]
-    rcases h.2 with hfl | ⟨_, hal⟩
-    · exact ⟨h.1, .inl hfl⟩
-    · rw [hal.conn c] at hd; cases hd
+    -- no connection is dead in a state satisfying `K`
+    rw [h.2.2.conn c] at hd; cases hd
   | false =>
     simp only [Bool.false_eq_true, if_false]
     have : Pres K (do
@@ -220,32 +209,27 @@ theorem sendallGuarded_K (mode : Mode) (c : Nat) (data : Bytes) (s : Sys) (hup :
 
 theorem openConn_K (c : Nat) : Pres K (openConn c) := by
   intro s h
-  refine ⟨openConn_txWf c s h.1, ?_⟩
-  rcases h.2 with hfl | ⟨h1, h2⟩
-  · exact .inl hfl
-  · refine .inr ⟨h1, fun x hx => ?_⟩
-    have hx' : x ∈ s.srv.conns ++ [{ id := c }] := hx
-    rcases List.mem_append.1 hx' with hx' | hx'
-    · exact h2 x hx'
-    · simp only [List.mem_singleton] at hx'
-      subst hx'; rfl
+  obtain ⟨h1, h2⟩ := h.2
+  refine ⟨openConn_txWf c s h.1, h1, fun x hx => ?_⟩
+  have hx' : x ∈ s.srv.conns ++ [{ id := c }] := hx
+  rcases List.mem_append.1 hx' with hx' | hx'
+  · exact h2 x hx'
+  · simp only [List.mem_singleton] at hx'
+    subst hx'; rfl
 
 theorem gcConn_K (c : Nat) : Pres K (gcConn c) := by
   intro s h
-  refine ⟨gcConn_txWf c s h.1, ?_⟩
-  rcases h.2 with hfl | ⟨h1, h2⟩
-  · exact .inl hfl
-  · refine .inr ⟨h1, fun x hx => ?_⟩
-    have hx' : x ∈ s.srv.conns.filter (·.id != c) := hx
-    exact h2 x (List.mem_filter.1 hx').1
+  obtain ⟨h1, h2⟩ := h.2
+  refine ⟨gcConn_txWf c s h.1, h1, fun x hx => ?_⟩
+  have hx' : x ∈ s.srv.conns.filter (·.id != c) := hx
+  exact h2 x (List.mem_filter.1 hx').1
 
 theorem closeConn_K (c : Nat) : Pres K (closeConn c) := by
   intro s h
+  obtain ⟨h1, h2⟩ := h.2
   refine ⟨closeConn_txWf c s h.1, ?_⟩
   rw [closeConn_run]
-  rcases h.2 with hfl | ⟨h1, h2⟩
-  · exact .inl hfl
-  · exact .inr ⟨h1, AllAlive.updConn
+  exact ⟨h1, AllAlive.updConn
       (s := { s with srv := { s.srv with closedSockets := s.srv.closedSockets ++ [c] } }) h2 c _ (fun _ => rfl)⟩
 
 /-- the event is not a write while the server is marked disconnected (such a write raises the client library's
@@ -257,19 +241,19 @@ def _root_.FR.Ev.up (s : Sys) : Ev → Prop
 instance (s : Sys) (e : Ev) : Decidable (e.up s) := by
   cases e <;> unfold Ev.up <;> infer_instance
 
-/-- **one event, from a state with well-formed queues and no dead connection**: afterwards the queues are well-formed
-and, unless the model has flagged the run, nothing crashed and no connection is dead -/
+/-- **one event, from a state with well-formed queues and no dead connection**: afterwards the queues are well-formed,
+nothing crashed and no connection is dead - whether or not the model has flagged the run -/
 theorem stepEv_K (s : Sys) (e : Ev) (h : TxWf s) (ha : AllAlive s) (hup : e.up s) : K (stepEv s e) := by
   have hI := k_stepClosed
-  have h0 : K s.beginEvent := ⟨h, .inr ⟨rfl, ha⟩⟩
-  have hh : ∀ clocks picks, K (s.beginEvent.withHints clocks picks) := fun _ _ => ⟨h, .inr ⟨rfl, ha⟩⟩
+  have h0 : K s.beginEvent := ⟨h, rfl, ha⟩
+  have hh : ∀ clocks picks, K (s.beginEvent.withHints clocks picks) := fun _ _ => ⟨h, rfl, ha⟩
   unfold stepEv
   cases e with
-  | version v => exact ⟨h, .inr ⟨rfl, ha⟩⟩
+  | version v => exact ⟨h, rfl, ha⟩
   | «open» c => exact openConn_K c _ h0
   | close c => exact closeConn_K c _ h0
   | gc c => exact gcConn_K c _ h0
-  | conn up => exact ⟨h, .inr ⟨rfl, ha⟩⟩
+  | conn up => exact ⟨h, rfl, ha⟩
   | request mode c fields clocks picks => exact processCommand_K mode c fields _ (hh clocks picks)
   | send mode c data clocks picks => exact sendallGuarded_K mode c data _ hup (hh clocks picks)
   | wake c clocks => exact sc_wakeConn hI c _ (hh clocks [])
@@ -288,24 +272,52 @@ instance decGoodFrom : (s : Sys) → (evs : List Ev) → Decidable (GoodFrom s e
     have := decGoodFrom (stepEv s e) es
     by unfold GoodFrom; infer_instance
 
-theorem K.healthy {s : Sys} (h : K s) (hf : s.fault = none) : s.crashed = none ∧ AllAlive s := by
-  rcases h.2 with hfl | h2
-  · rw [hf] at hfl; cases hfl
-  · exact h2
+theorem K.healthy {s : Sys} (h : K s) : s.crashed = none ∧ AllAlive s := h.2
 
-theorem foldl_alive (evs : List Ev) (s : Sys) (h : TxWf s) (ha : AllAlive s) (hg : GoodFrom s evs) :
-    AllAlive (evs.foldl stepEv s) ∧ (evs ≠ [] → (evs.foldl stepEv s).crashed = none ∧ (evs.foldl stepEv s).fault = none) := by
+/-- a history without a write during an outage (the one event that raises by design) -/
+def UpFrom (s : Sys) : List Ev → Prop
+  | [] => True
+  | e :: es => e.up s ∧ UpFrom (stepEv s e) es
+
+instance decUpFrom : (s : Sys) → (evs : List Ev) → Decidable (UpFrom s evs)
+  | _, [] => isTrue trivial
+  | s, e :: es =>
+    have := decUpFrom (stepEv s e) es
+    by unfold UpFrom; infer_instance
+
+theorem GoodFrom.up : {s : Sys} → {evs : List Ev} → GoodFrom s evs → UpFrom s evs
+  | _, [], _ => trivial
+  | _, _ :: _, h => ⟨h.1, GoodFrom.up h.2.2⟩
+
+/-- over a history without a write during an outage: nobody dies, nothing crashes - whatever the `fault` marker says -/
+theorem foldl_alive_up (evs : List Ev) (s : Sys) (h : TxWf s) (ha : AllAlive s) (hg : UpFrom s evs) :
+    AllAlive (evs.foldl stepEv s) ∧ (evs ≠ [] → (evs.foldl stepEv s).crashed = none) := by
   induction evs generalizing s with
   | nil => exact ⟨ha, fun h => absurd rfl h⟩
   | cons e es ih =>
-    obtain ⟨hup, hff, hrest⟩ := hg
+    obtain ⟨hup, hrest⟩ := hg
     have hk := stepEv_K s e h ha hup
-    obtain ⟨hcr, hal⟩ := hk.healthy hff
+    obtain ⟨hcr, hal⟩ := hk.healthy
     obtain ⟨h1, h2⟩ := ih (stepEv s e) hk.1 hal hrest
     refine ⟨h1, fun _ => ?_⟩
     cases es with
-    | nil => exact ⟨hcr, hff⟩
+    | nil => exact hcr
     | cons e' es' => exact h2 (by simp)
+
+theorem foldl_faultfree (evs : List Ev) (s : Sys) (hg : GoodFrom s evs) :
+    evs ≠ [] → (evs.foldl stepEv s).fault = none := by
+  induction evs generalizing s with
+  | nil => exact fun h => absurd rfl h
+  | cons e es ih =>
+    obtain ⟨_, hff, hrest⟩ := hg
+    intro _
+    cases es with
+    | nil => exact hff
+    | cons e' es' => exact ih (stepEv s e) hrest (by simp)
+
+theorem foldl_alive (evs : List Ev) (s : Sys) (h : TxWf s) (ha : AllAlive s) (hg : GoodFrom s evs) :
+    AllAlive (evs.foldl stepEv s) ∧ (evs ≠ [] → (evs.foldl stepEv s).crashed = none ∧ (evs.foldl stepEv s).fault = none) :=
+  ⟨(foldl_alive_up evs s h ha hg.up).1, fun hne => ⟨(foldl_alive_up evs s h ha hg.up).2 hne, foldl_faultfree evs s hg hne⟩⟩
 
 /-! ## 4. EXEC after a queueing error -/
 
